@@ -1193,16 +1193,20 @@ class WorkflowConductor(object):
     def _merge_ctx_idxs(current, incoming):
         # Merge an incoming list of context entries into the current list. An entry that is
         # already included keeps its position, otherwise an older value that the incoming branch
-        # merely inherited overrides a newer value. A new entry goes before the entries that
-        # follow it in the incoming list, or to the end so that the later arrival wins.
+        # merely inherited overrides a newer value. A new entry goes after the entries that
+        # precede it in the incoming list and, if possible, before the entries that follow it
+        # in the incoming list, or to the end so that the later arrival wins.
         merged = list(current)
 
         for pos, idx in enumerate(incoming):
             if idx in merged:
                 continue
 
+            leaders = [merged.index(i) for i in incoming[:pos] if i in merged]
             followers = [merged.index(i) for i in incoming[pos + 1 :] if i in merged]
-            merged.insert(min(followers) if followers else len(merged), idx)
+            after = max(leaders) + 1 if leaders else 0
+            before = min(followers) if followers else len(merged)
+            merged.insert(max(after, before), idx)
 
         return merged
 
